@@ -125,8 +125,8 @@ pub fn nest_jar<A>(remap_option: bool, src: &impl Jar, nests: Nests<A>) -> Resul
 		let entry_attr = BasicFileAttributes::default();
 
 		let (name, class_node) = if remap_option {
-			let name = dukebox::remap::remap_jar_entry_name_java(&new_class_name, &remapper)?
-				.into_string().unwrap(); // TODO: unwrap
+			let entry_name = new_class_name.to_owned().into_string().expect("a class name contained unmatched surrogate pairs") + ".class"; // TODO: unwrap
+			let name = dukebox::remap::remap_jar_entry_name(&entry_name, &remapper)?;
 			let class_node = do_nested_class_attribute_class_visitor(&this_nests, new_class);
 			let class_node = dukebox::remap::remap_class(&remapper, class_node)?;
 
